@@ -458,7 +458,13 @@ def unit_bounded_straddle(U):
                      "boundaries 2**17, 2**20, 2**26 (thorough + 2**23): 17 features starting 0..60 before and ending -1..2**17+5 after it x 45 query intervals x {overlap, within} x 4 entry points", cases, fails)
 
 
-UNITS = [("limit", unit_limit), ("region", unit_region), ("sqlmodel", unit_sqlmodel_validation), ("bounded", unit_bounded), ("bounded.straddle", unit_bounded_straddle)]
+def unit_schema(U):
+    """standing assumption of the SQL model, checked on the real SCHEMA: plain text/int columns, exact text comparison"""
+    from contracts import importer as IM_
+    IM_.prove_plain_schema(U, "C06", ['features', 'relations'])
+
+
+UNITS = [("schema", unit_schema), ("limit", unit_limit), ("region", unit_region), ("sqlmodel", unit_sqlmodel_validation), ("bounded", unit_bounded), ("bounded.straddle", unit_bounded_straddle)]
 
 
 def replay_file(doc):
